@@ -288,6 +288,11 @@ class SymInterp:
                 if a is not None and b is not None:
                     op = type(e.ops[0])
                     return {ast.Eq: a == b, ast.NotEq: a != b, ast.Lt: a < b, ast.LtE: a <= b, ast.Gt: a > b, ast.GtE: a >= b}[op]
+            if isinstance(l, dict) and isinstance(r, (tuple, list)) and isinstance(e.ops[0], (ast.In, ast.NotIn)):
+                a = pconst(l)
+                bs = [pconst(x) if isinstance(x, dict) else None for x in r]
+                if a is not None and all(x is not None for x in bs):
+                    return (a in bs) if isinstance(e.ops[0], ast.In) else (a not in bs)
             raise AnalysisError("E4: %s: comparison `%s` does not fold" % (fi.where(e), txt(e)))
         if isinstance(e, ast.BoolOp):
             vals = [self.truth(v, env, fi) for v in e.values]
@@ -295,6 +300,8 @@ class SymInterp:
         if isinstance(e, (ast.Tuple, ast.List)):
             vs = [self.ev(x, env, fi) for x in e.elts]
             return vs if isinstance(e, ast.List) else tuple(vs)
+        if isinstance(e, ast.IfExp):
+            return self.ev(e.body if self.truth(e.test, env, fi) else e.orelse, env, fi)
         if isinstance(e, (ast.ListComp, ast.GeneratorExp)):
             return self.comp(e, env, fi)
         if isinstance(e, ast.Call):
